@@ -81,6 +81,10 @@ def run(repo, rep, tier):
     redeclared_flavors(repo, rep)
     flavor_default_rule(repo, rep)
     resolve_gets_deep_copy(repo, rep)
+    from .c10 import status_follows_existence
+    status_follows_existence(repo, rep, 'C12.R11', lambda f: 'Class' in f.name
+                             or 'Qualifier' in f.name or
+                             'subclass' in f.name)
     inheritance_marks(repo, rep, r6)
 
     mp = repo.cls(MAIN, 'MainProvider')
